@@ -93,3 +93,13 @@ package uncompng
 //@   loop 6 decreases width - x
 //@   loop 7 invariant 0 <= x && x <= width && len(row) == 8*(width - x) && 0x0D <= ej && ej <= 0xFFF8 && adlerOK(e) && implies(isFirst(e), 0x30 <= ej) && 0 <= y && y < height
 //@   loop 7 decreases width - x
+
+// The CRC-32 table against its definition (reflected polynomial 0xEDB88320, one table
+// entry = eight conditional shift-and-xor steps of the index): proved entry by entry.
+//@ spec crcStep(x uint32) uint32 = ite(x & 1 == 1, (x >> 1) ^ 0xEDB88320, x >> 1)
+//@ spec crc8(x uint32) uint32 = crcStep(crcStep(crcStep(crcStep(crcStep(crcStep(crcStep(crcStep(x))))))))
+//@ lemma crctable
+//@   prop C19
+//@   mode bv
+//@   expand
+//@   ensures forall(i, 0, 256, crc32IEEETable[i] == crc8(uint32(i)))
